@@ -39,6 +39,7 @@ import DDS.Proofs.GenMapping
 import DDS.Proofs.GenMapId
 import DDS.Proofs.GenSketch7
 import DDS.Proofs.Proto
+import DDS.Proofs.GenProtoStore
 
 set_option linter.unusedVariables false
 
@@ -462,5 +463,276 @@ theorem FromProto_err_nil_iff (hle : LeOne) (fuel : Nat) (pm? : Option (GoPb.Ind
     exact ⟨fun _ => ⟨id, rfl⟩, fun _ => hm.1⟩
 
 end f64
+
+/-! ## Part 2: the sketch level -/
+
+section sketch
+open DDS.GenSketch DDS.GenSketch7 DDS.Gen.SketchProto DDS.Gen.Sketch
+open DDS.GenProtoStore (msgCalls wrap32 wrap32_of_I32 mergeWithProto_eq_fold)
+
+/-- a binary64 bit pattern as a float -/
+def bitsF (b : Nat) : F64 := F64.ofBits (UInt64.ofNat b)
+
+theorem bitsF_f64bits (x : F64) (h : F64.ofBits (F64.toBits x) = x) : bitsF (Proto.f64bits x) = x := by
+  unfold bitsF Proto.f64bits; rw [MapId.ofNat_toBits, h]
+
+/-! ### messages of the model ↦ Go messages, and back -/
+
+def goOfPbMapping (p : Proto.PbMapping) : GoPb.IndexMapping F64 :=
+  { Gamma := bitsF p.gamma, IndexOffset := bitsF p.indexOffset, Interpolation := BitVec.ofNat 32 p.interpolation }
+
+/-- `binCounts` in arrival order, later entries for a key win: `m[k] = v` entry by entry -/
+def goOfPbStore (p : Proto.PbStore) : GoPb.Store F64 :=
+  { BinCounts := p.binCounts.foldl (fun m e => mset m e.1 (bitsF e.2)) [],
+    ContiguousBinCounts := p.contiguous.map bitsF,
+    ContiguousBinIndexOffset := BitVec.ofInt 32 p.contiguousOffset }
+
+def goOfPbSketch (p : Proto.PbSketch) : GoPb.DDSketch F64 :=
+  { Mapping := p.mapping.map goOfPbMapping, PositiveValues := p.pos.map goOfPbStore,
+    NegativeValues := p.neg.map goOfPbStore, ZeroCount := bitsF p.zero }
+
+def pbStoreOfGo (m : GoPb.Store F64) : Proto.PbStore :=
+  { binCounts := m.BinCounts.map (fun p => (p.1, Proto.f64bits p.2)),
+    contiguous := m.ContiguousBinCounts.map Proto.f64bits,
+    contiguousOffset := m.ContiguousBinIndexOffset.toInt }
+
+def pbSketchOfGo (m : GoPb.DDSketch F64) : Proto.PbSketch :=
+  { mapping := m.Mapping.map pbOfGo, pos := m.PositiveValues.map pbStoreOfGo,
+    neg := m.NegativeValues.map pbStoreOfGo, zero := Proto.f64bits m.ZeroCount }
+
+/-! ### the protobuf side of the two interfaces, implemented by the model -/
+
+/-- `mapping.FromProto` through the model's `mappingFromProto` (the oracle functions of the resulting `MapEnv` are
+    defaults: only the identity is in the message — the convention of `GenSketch.mapDecode`) -/
+def mapFromProto (pm? : Option (GoPb.IndexMapping F64)) : MapEnv × GoErr :=
+  match Proto.mappingFromProto (pm?.map pbOfGo) with
+  | .ok id => ({ (default : MapEnv) with id := id }, GoErr.nil)
+  | .error x => (default, errOf x)
+
+instance instMapPbI : GoPb.MapPbI MapEnv where
+  ToProto e := goOfPbMapping (Proto.mappingToProto e.id)
+  FromProto := mapFromProto
+
+/-- `Store.ToProto` through the model's `storeToProto`; where the model panics the empty message (nothing is
+    claimed there) -/
+instance instStorePbI : GoPb.StorePbI Store where
+  ToProto st := goOfPbStore ((Proto.storeToProto st).getD {})
+
+/-! ### `DDSketch.ToProto` -/
+
+/-- for ANY instances: the three sub-messages are never nil, the zero count is the field -/
+theorem ToProto_fields {M S : Type} [MapI M] [StoreI S] [Inhabited M] [Inhabited S] [GoPb.MapPbI M]
+    [GoPb.StorePbI S] (g : DDSketch M S) :
+    DDSketch.ToProto g =
+      { Mapping := some (GoPb.MapPbI.ToProto g.IndexMapping),
+        PositiveValues := some (GoPb.StorePbI.ToProto g.positiveValueStore),
+        NegativeValues := some (GoPb.StorePbI.ToProto g.negativeValueStore),
+        ZeroCount := g.zeroCount } := rfl
+
+/-- **`DDSketch.ToProto (toGen env s)` is the model's `Proto.toProto s`**, embedded (`s.zero` a float that survives
+    `toBits / ofBits`, as every Go float does) -/
+theorem ToProto_model (env : MapEnv) (s : Sketch) (hm : s.mapping = some env.id) (m : Proto.PbSketch)
+    (h : Proto.toProto s = some m) (hz : F64.ofBits (F64.toBits s.zero) = s.zero) :
+    DDSketch.ToProto (toGen env s) = goOfPbSketch m := by
+  unfold Proto.toProto at h
+  cases hp : Proto.storeToProto s.pos with
+  | none => rw [hp] at h; cases h
+  | some p =>
+    cases hn : Proto.storeToProto s.neg with
+    | none => rw [hp, hn] at h; cases h
+    | some n =>
+      rw [hp, hn] at h
+      simp only [Option.pure_def, Option.bind_eq_bind, Option.bind_some, Option.some.injEq] at h
+      subst h
+      have e : ∀ st : Store, GoPb.StorePbI.ToProto st = goOfPbStore ((Proto.storeToProto st).getD {}) :=
+        fun _ => rfl
+      rw [ToProto_fields]
+      simp only [goOfPbSketch, toGen_mapping, toGen_pos, toGen_neg, toGen_zero, Option.map_some,
+        bitsF_f64bits _ hz, e, hp, hn, hm, Option.getD_some]
+      rfl
+
+/-- whatever the zero count: the bits of the generated message's zero count are the model's -/
+theorem ToProto_zero_bits (env : MapEnv) (s : Sketch) (m : Proto.PbSketch) (h : Proto.toProto s = some m) :
+    Proto.f64bits (DDSketch.ToProto (toGen env s)).ZeroCount = m.zero := by
+  unfold Proto.toProto at h
+  cases hp : Proto.storeToProto s.pos with
+  | none => rw [hp] at h; cases h
+  | some p =>
+    cases hn : Proto.storeToProto s.neg with
+    | none => rw [hp, hn] at h; cases h
+    | some n =>
+      rw [hp, hn] at h
+      simp only [Option.pure_def, Option.bind_eq_bind, Option.bind_some, Option.some.injEq] at h
+      subst h
+      rfl
+
+/-! ### `FromProtoWithStoreProvider`, any instances -/
+
+section any
+variable {M S : Type} [MapI M] [StoreI S] [Inhabited M] [Inhabited S] [GoPb.MapPbI M] [GoPb.StorePbI S]
+
+/-- a store after an optional `Store` message: a nil sub-message is skipped (no error, no panic) -/
+def mergeOpt (ord : MapOrder) (st : S) : Option (GoPb.Store F64) → S
+  | some m => GenProtoStore.addAll st (msgCalls ord m)
+  | none => st
+
+omit [Inhabited S] [GoPb.StorePbI S] in
+theorem mergeStep (fuel : Nat) (ord : MapOrder) (st : S) (m? : Option (GoPb.Store F64)) :
+    (if Option.isSome m? then
+        GoSem.optR m? (fun t => Res.bind (Gen.StoreProto.MergeWithProto fuel ord st t) (fun st => .ok st))
+      else .ok st) = .ok (mergeOpt ord st m?) := by
+  cases m? with
+  | none => rfl
+  | some m =>
+    simp only [Option.isSome_some, if_true, optR_some, mergeWithProto_eq_fold, Res.bind_ok]
+    rfl
+
+/-- what the function returns next to an error of `mapping.FromProto` (Go: the nil pointer) -/
+def nilSketch : DDSketch M S :=
+  { IndexMapping := default, positiveValueStore := default, negativeValueStore := default, zeroCount := F64.fin 0 }
+
+/-- the function, step by step: provider, positive message, provider, negative message, mapping; the only error
+    is the one of `mapping.FromProto`, the only panic the provider's; no fuel is consumed -/
+theorem FromProto_eq (fuel : Nat) (ord : MapOrder) (pb : GoPb.DDSketch F64) (p : Unit → Res S) :
+    FromProtoWithStoreProvider (M := M) fuel ord pb p =
+      Res.bind (p ()) (fun a => Res.bind (p ()) (fun b =>
+        if (GoPb.MapPbI.FromProto (M := M) pb.Mapping).2 != GoErr.nil then
+          .ok (nilSketch, (GoPb.MapPbI.FromProto (M := M) pb.Mapping).2)
+        else
+          .ok ({ IndexMapping := (GoPb.MapPbI.FromProto (M := M) pb.Mapping).1,
+                 positiveValueStore := mergeOpt ord a pb.PositiveValues,
+                 negativeValueStore := mergeOpt ord b pb.NegativeValues,
+                 zeroCount := pb.ZeroCount }, GoErr.nil))) := by
+  unfold FromProtoWithStoreProvider
+  cases hp : p () with
+  | ok a =>
+    simp only [Res.bind_ok, mergeStep]
+    rfl
+  | panic => rfl
+  | nofuel => rfl
+
+end any
+
+/-! ### the generic `MergeWithProto` on the model's stores is the model's `mergeWithProto` -/
+
+/-- every float of the message survives `toBits / ofBits` (every Go float does; `F64.fin q` with `q` off the
+    binary64 grid does not) -/
+def StoreBitsOK (pb : GoPb.Store F64) : Prop :=
+  (∀ p ∈ pb.BinCounts, F64.ofBits (F64.toBits p.2) = p.2) ∧
+  ∀ c ∈ pb.ContiguousBinCounts, F64.ofBits (F64.toBits c) = c
+
+theorem foldlM_some_foldl {α σ : Type} (f : σ → α → Option σ) (g : σ → α → σ) :
+    ∀ (l : List α) (hfg : ∀ x ∈ l, ∀ s s', f s x = some s' → g s x = s') (s s' : σ),
+      l.foldlM f s = some s' → l.foldl g s = s' := by
+  intro l
+  induction l with
+  | nil => intro _ s s' h; simpa using h
+  | cons x l ih =>
+    intro hfg s s' h
+    rw [List.foldlM_cons] at h
+    cases hx : f s x with
+    | none => rw [hx] at h; cases h
+    | some s1 =>
+      rw [hx] at h
+      rw [List.foldl_cons, hfg x (List.mem_cons_self ..) s s1 hx]
+      exact ih (fun y hy => hfg y (List.mem_cons_of_mem _ hy)) s1 s' h
+
+/-- the weight a float count stands for in the model's stores (`none`: not finite) -/
+def finOf : F64 → Option Rat
+  | .fin q => some q
+  | _ => none
+
+theorem weightOf_f64bits (c : F64) (h : F64.ofBits (F64.toBits c) = c) :
+    Proto.weightOf (Proto.f64bits c) = finOf c := by
+  unfold Proto.weightOf Proto.f64bits
+  rw [MapId.ofNat_toBits]
+  have h' := h
+  generalize F64.ofBits c.toBits = y at h' ⊢
+  subst h'
+  cases y <;> rfl
+
+/-- one call: where the model adds, the instance's `AddWithCount` returns the model's store -/
+theorem add_step (s s' : Store) (k : Int) (c : F64) (hc : F64.ofBits (F64.toBits c) = c)
+    (h : (Proto.weightOf (Proto.f64bits c)).bind (fun w => s.addWithCount k w) = some s') :
+    StoreI.AddWithCount s k c = s' := by
+  rw [weightOf_f64bits c hc] at h
+  cases c with
+  | fin q => exact store_addWithCount_some s s' k q h
+  | pinf => simp [finOf] at h
+  | ninf => simp [finOf] at h
+  | nan => simp [finOf] at h
+
+theorem find_of_mem_pairwise {V : Type} : ∀ (m : GoMap V) (hs : List.Pairwise (fun a b => a < b) (m.map Prod.fst))
+    (p : Int × V), p ∈ m → m.find? (fun q => q.1 == p.1) = some p := by
+  intro m
+  induction m with
+  | nil => intro _ p hp; cases hp
+  | cons q m ih =>
+    intro hs p hp
+    rw [List.map_cons, List.pairwise_cons] at hs
+    rcases List.mem_cons.mp hp with rfl | hp
+    · simp
+    · have hlt : q.1 < p.1 := hs.1 p.1 (List.mem_map_of_mem hp)
+      have : (q.1 == p.1) = false := by simp; omega
+      rw [List.find?_cons, this]
+      exact ih hs.2 p hp
+
+/-- the ascending oracle visits a map in storage order -/
+theorem mrange_ascending' {V : Type} (m : GoMap V) (hs : List.Pairwise (fun a b => a < b) (m.map Prod.fst)) :
+    mrange MapOrder.ascending m = m := by
+  unfold mrange MapOrder.ascending
+  simp only [id]
+  rw [List.filterMap_map]
+  have : List.filterMap ((fun k => (m.find? (fun p => p.1 == k)).map (fun p => (k, p.2))) ∘ Prod.fst) m
+      = List.filterMap some m := by
+    apply List.filterMap_congr
+    intro p hp
+    simp only [Function.comp, find_of_mem_pairwise m hs p hp, Option.map_some]
+  rw [this, List.filterMap_some]
+
+/-- **the regenerated generic `MergeWithProto`, run on a store of the model with the ascending oracle, is the model's
+    `mergeWithProto`** on the projected message, wherever the model does not answer `none` (panic / weight outside
+    the model); message well formed (`GoPb.Store.WF`: keys are `int32` values, increasing), floats surviving
+    `toBits / ofBits`; every fuel -/
+theorem MergeWithProto_model (fuel : Nat) (st st' : Store) (pb : GoPb.Store F64) (hwf : pb.WF)
+    (hb : StoreBitsOK pb) (h : Proto.mergeWithProto st (pbStoreOfGo pb) = some st') :
+    Gen.StoreProto.MergeWithProto fuel MapOrder.ascending st pb = .ok st' := by
+  rw [mergeWithProto_eq_fold]
+  congr 1
+  rw [Proto.mergeWithProto_eq] at h
+  have hinc : (pbStoreOfGo pb).binCounts.Pairwise (fun a b => a.1 < b.1) := by
+    have := hwf.2
+    unfold pbStoreOfGo
+    simp only [List.pairwise_map] at this ⊢
+    exact this
+  rw [Proto.normBinCounts_of_increasing _ hinc] at h
+  cases h1 : List.foldlM Proto.binStep st (pbStoreOfGo pb).binCounts with
+  | none => rw [h1] at h; cases h
+  | some s1 =>
+    rw [h1] at h
+    simp only [Option.bind_eq_bind, Option.bind_some] at h
+    unfold msgCalls
+    rw [GenProtoStore.addAll_append, mrange_ascending' _ hwf.2]
+    -- the sparse part
+    have e1 : GenProtoStore.addAll st (pb.BinCounts.map (fun p => (wrap32 p.1, p.2))) = s1 := by
+      unfold GenProtoStore.addAll
+      rw [List.foldl_map]
+      unfold pbStoreOfGo at h1
+      simp only [List.foldlM_map] at h1
+      refine foldlM_some_foldl _ _ pb.BinCounts ?_ st s1 h1
+      intro x hx s s' hs
+      rw [wrap32_of_I32 x.1 (hwf.1 x hx)]
+      exact add_step s s' x.1 x.2 (hb.1 x hx) hs
+    rw [e1]
+    -- the contiguous part
+    unfold GenProtoStore.addAll
+    rw [List.foldl_map]
+    unfold pbStoreOfGo at h
+    simp only [List.zipIdx_map, List.foldlM_map] at h
+    refine foldlM_some_foldl _ _ pb.ContiguousBinCounts.zipIdx ?_ s1 st' h
+    intro x hx s s' hs
+    exact add_step s s' _ x.1 (hb.2 x.1 (List.fst_mem_of_mem_zipIdx hx)) hs
+
+end sketch
 
 end DDS.GenProtoSketch
